@@ -170,7 +170,7 @@ def run(ctx):
     record(th.reorder_datums(th.example_stream("external_assets_legacy.json"), rng, "late"), "example:legacy:datums-late")
     for i in range(10 if q else 40):
         record(th.reorder_datums(th.example_stream("external_assets_legacy.json"), rng), f"example:legacy:reordered:{i}")
-    for i in range(100 if q else 800):
+    for i in range(100 if q else 2000):
         record(th.random_norm_run(rng, i, max_events=5 if q else 8), f"random:{i}")
 
     ctx.note(f"phase recorded runs: {time.time() - t0:.1f}s")
@@ -196,6 +196,7 @@ def run(ctx):
             ctx.sample({"n": n, "cap": cap, "primary_fails_at": fails, "backup_fails": bfails, "handed_to_backups": got})
     if not ncases:
         ctx.machinery("no cases printed by the Backup replay configuration")
+    ctx.note(f"{ncases} Backup cases replayed on a real _ConditionalBackup")
     for i in range(60 if q else 1500):
         n = rng.randint(1, 30)
         fails = sorted(set(rng.sample(range(1, n + 1), rng.choice([0, 1, 1, 2, 3]) if n >= 3 else rng.randint(0, 1))))
